@@ -111,7 +111,7 @@ var Projections = map[string]*Projection{
 	"C18": {Intact: true, Recv: map[string]fieldSet{"*": kinds},
 		Cb: map[string]fieldSet{"*": fs("q", "def", "intact", "ret")}},
 	// TLS upgrade: reply kinds inside and outside the TLS session, raw-wire facts, callbacks
-	"C11": {Wire: true, Recv: map[string]fieldSet{"*": kinds, "ssl": fs("b"), "R": fs("code")},
+	"C11": {Wire: true, Global: true, Recv: map[string]fieldSet{"*": kinds, "ssl": fs("b"), "R": fs("code")},
 		Cb: map[string]fieldSet{"*": fs("q", "def")}},
 	// isolation: everything a connection sees and everything its callbacks see, except row payload encodings
 	"C15": {Recv: map[string]fieldSet{"*": kinds, "S": fs("key", "val"), "T": fs("n", "names", "oids", "tables", "attrs"), "D": fs("n", "cells"), "C": fs("tag"), "R": fs("code")},
